@@ -365,18 +365,47 @@ rule OctalSal salience -017 { when F.I2 > 99 then F.I2 = 0; }`})
 		{
 			id := "c12/" + k.name + "/no-overwrite"
 			if rep.ReplayFilter == "" || rep.ReplayFilter == id {
-				l3 := ast.NewKnowledgeLibrary()
-				_ = builder.NewRuleBuilder(l3).BuildRuleFromResource("KB", "1", pkg.NewBytesResource([]byte(`rule keep { when F.I2 == 0 then F.I2 = 42; }`)))
-				before := l3.Library[ast.GetKnowledgeBaseKey("KB", "1")]
-				beforeB, _ := c12Behaviour(l3, nil, "KB", "1", []int{0})
-				_, err := l3.LoadKnowledgeBaseFromReader(bytes.NewReader(stream), false)
-				after := l3.Library[ast.GetKnowledgeBaseKey("KB", "1")]
-				afterB, _ := c12Behaviour(l3, nil, "KB", "1", []int{0})
-				if err == nil {
-					report("C12:load-without-overwrite-returns-no-error", k.name, id, nil)
-				}
-				if before != after || beforeB != afterB {
-					report("C12:load-without-overwrite-touches-existing-entry", k.name, id, nil)
+				// the entry that exists: with one rule, with none (a placeholder made by GetKnowledgeBase, a text without
+				// rules, every rule removed again): whatever it holds, it is left untouched
+				for _, ex := range []struct {
+					kind string
+					mk   func(l *ast.KnowledgeLibrary)
+				}{
+					{"one-rule", func(l *ast.KnowledgeLibrary) {
+						_ = builder.NewRuleBuilder(l).BuildRuleFromResource("KB", "1", pkg.NewBytesResource([]byte(`rule keep { when F.I2 == 0 then F.I2 = 42; }`)))
+					}},
+					{"placeholder", func(l *ast.KnowledgeLibrary) { l.GetKnowledgeBase("KB", "1") }},
+					{"text-without-rules", func(l *ast.KnowledgeLibrary) {
+						_ = builder.NewRuleBuilder(l).BuildRuleFromResource("KB", "1", pkg.NewBytesResource([]byte("// no rule yet\n")))
+					}},
+					{"every-rule-removed", func(l *ast.KnowledgeLibrary) {
+						_ = builder.NewRuleBuilder(l).BuildRuleFromResource("KB", "1", pkg.NewBytesResource([]byte(`rule keep { when F.I2 == 0 then F.I2 = 42; }`)))
+						l.RemoveRuleEntry("keep", "KB", "1")
+					}},
+				} {
+					l3 := ast.NewKnowledgeLibrary()
+					func() {
+						defer func() { recover() }()
+						ex.mk(l3)
+					}()
+					before := l3.Library[ast.GetKnowledgeBaseKey("KB", "1")]
+					if before == nil {
+						continue // nothing exists: the load may proceed
+					}
+					beforeB, _ := c12Behaviour(l3, nil, "KB", "1", []int{0})
+					_, err := l3.LoadKnowledgeBaseFromReader(bytes.NewReader(stream), false)
+					after := l3.Library[ast.GetKnowledgeBaseKey("KB", "1")]
+					afterB, _ := c12Behaviour(l3, nil, "KB", "1", []int{0})
+					sfx := ""
+					if ex.kind != "one-rule" {
+						sfx = ":existing-entry-" + ex.kind
+					}
+					if err == nil {
+						report("C12:load-without-overwrite-returns-no-error"+sfx, k.name, id, nil)
+					}
+					if before != after || beforeB != afterB {
+						report("C12:load-without-overwrite-touches-existing-entry"+sfx, k.name, id, nil)
+					}
 				}
 				// and into an empty library it must simply load
 				l4 := ast.NewKnowledgeLibrary()
@@ -517,6 +546,6 @@ rule OctalSal salience -017 { when F.I2 > 99 then F.I2 = 0; }`})
 		rep.Exhaustive = false
 		rep.Coverage["caps_hit"] = "time budget"
 	}
-	rep.Coverage["rule"] = "corpus: a kitchen-sink knowledge base covering every node kind and meta field (15 operators, both negation kinds, every constant kind incl. nil, method chains, selectors, all five assignment forms, negative salience, unicode description) + 7 small knowledge bases (thorough: + programs of the C01 families, up to 60). For each: store; load through a plain, a one-byte-at-a-time and a data+EOF reader; store(load) and load again (3 generations); EVERY truncation offset of the stream (quick, kitchen-sink only: every field boundary +-1 as recorded by a tracing writer), every 16th also through the one-byte reader; a writer failing at EVERY write-call index with and without a partial write; overwrite=false onto an existing entry; store, change the knowledge base (library removal / one more resource), store again, load; build one more resource / remove a rule / re-build a duplicate ON the loaded knowledge base. Oracle: equal name/version/rule names/descriptions/saliences and equal listener traces, results and final facts of instances (2 rule orders + FetchMatchingRules); a truncated stream must give an error or an equivalent knowledge base; a failing writer must give an error. Interleaved stores: 2 (thorough 3) threads each store their own library to their own writer under the cooperative scheduler, every Write call a yield point, every schedule with <= 1 preemption; each store returns nil and its stream loads into an equivalent knowledge base. Non-trivial: every truncation/fault point and every complete load compared behaviourally."
+	rep.Coverage["rule"] = "corpus: a kitchen-sink knowledge base covering every node kind and meta field (15 operators, both negation kinds, every constant kind incl. nil, method chains, selectors, all five assignment forms, negative salience, unicode description) + 7 small knowledge bases (thorough: + programs of the C01 families, up to 60). For each: store; load through a plain, a one-byte-at-a-time and a data+EOF reader; store(load) and load again (3 generations); EVERY truncation offset of the stream (quick, kitchen-sink only: every field boundary +-1 as recorded by a tracing writer), every 16th also through the one-byte reader; a writer failing at EVERY write-call index with and without a partial write; overwrite=false onto an existing entry (holding one rule, none - a placeholder, a text without rules, every rule removed); store, change the knowledge base (library removal / one more resource), store again, load; build one more resource / remove a rule / re-build a duplicate ON the loaded knowledge base. Oracle: equal name/version/rule names/descriptions/saliences and equal listener traces, results and final facts of instances (2 rule orders + FetchMatchingRules); a truncated stream must give an error or an equivalent knowledge base; a failing writer must give an error. Interleaved stores: 2 (thorough 3) threads each store their own library to their own writer under the cooperative scheduler, every Write call a yield point, every schedule with <= 1 preemption; each store returns nil and its stream loads into an equivalent knowledge base. Non-trivial: every truncation/fault point and every complete load compared behaviourally."
 	_ = facts.New
 }
